@@ -25,11 +25,11 @@ import (
 
 var run *vx.Run
 
-const minAnnounce = 700 * time.Millisecond
+const minAnnounce = 1500 * time.Millisecond
 
 // receiver-side gaps differ from sender-side gaps by the difference of two delivery delays (connection
 // set-up, scheduling); a gap is judged only if it is shorter than the bound by more than this slack
-const spacingSlack = 300 * time.Millisecond
+const spacingSlack = 300 * time.Millisecond // counters of announces closer than this are not compared
 
 // reply script kinds
 var intervals = []*int64{nil, reftracker.I(0), reftracker.I(-1), reftracker.I(-2147483648), reftracker.I(1), reftracker.I(2), reftracker.I(2147483647)}
@@ -214,7 +214,7 @@ func scenario(k int) {
 		port = t.Port()
 		t.AddPeer(seedAddr)
 		// let it run: a few manual announces (need more peers) in bursts
-		dur := time.Duration(1500+r.Intn(1800)) * time.Millisecond
+		dur := time.Duration(2600+r.Intn(2000)) * time.Millisecond
 		end := time.Now().Add(dur)
 		for time.Now().Before(end) {
 			if r.Intn(3) == 0 {
@@ -350,7 +350,7 @@ func scenario(k int) {
 				case "":
 					if !lastPlain.IsZero() {
 						gap := rp.a.At.Sub(lastPlain)
-						if gap < bound-spacingSlack && vx.CanaryWorstSince(w.start) < 100*time.Millisecond {
+						if gap < bound/2 && vx.CanaryWorstSince(w.start) < 100*time.Millisecond {
 							viol("announce-spacing:"+proto, "run %d: two consecutive event-less announces %s apart; bound %s (smaller of the client's minimum %s and the tracker's positive interval values in its last reply)", ri, gap, bound, minAnnounce)
 							return
 						}
@@ -421,10 +421,10 @@ func main() {
 		wg.Wait()
 		run.Finish(0)
 	}
-	run.RunChildren("scen", run.N(96, 3000), 12, "c15-", 40*time.Second, func(res vx.ChildResult, k int, logp string) {
+	run.RunChildren("scen", run.N(96, 3000), 16, "c15-", 40*time.Second, func(res vx.ChildResult, k int, logp string) {
 		run.Inconclusive(fmt.Sprintf("scenario child crashed (%s at %s, log %s): crashes belong to C04/C08", res.PanicText, res.RainFrame, logp))
 	})
-	run.Assume("spacing uses receiver time stamps: a gap is a violation only if it undercuts the bound by more than 300 ms while the load canary was on time (delivery delay of the earlier announce shortens the observed gap)")
+	run.Assume("spacing uses receiver time stamps and the client times its next announce from the moment it triggered the previous one, so a slow delivery of the earlier announce shortens the observed gap: a gap is a violation only below half of the bound (bound = min(client minimum 1.5 s, tracker's positive interval)) while the load canary was on time")
 	run.Assume("'left' is recorded, not judged (after closeData the stopped announce reports the full length)")
 	run.Finish(30)
 }
